@@ -14,7 +14,9 @@ func RunAll(w *load.World, c *core.Collector) {
 	Keys(w, c)
 	Flush(w, c)
 	Dirty(w, c)
+	ItemFlags(w, c)
 	Pair(w, c)
+	DocFlow(w, c)
 	Enum(w, c)
 	Limits(w, c)
 	Tagged(w, c)
